@@ -3,9 +3,10 @@ C18 - attribute proofs accept the true value and reject others.
 
 (a) ``FP2Value`` against an independent implementation of F_p[x]/(x^2+x+1) (``pv.fp2ref``): every operator, on
     operands with general denominators, for every prime = 2 (mod 3) below 200 (coefficient grids), random 32..128
-    bit primes and a fixed 255-bit prime (polynomial identity testing: the operators are polynomial maps of degree
-    <= 2 in the twelve coefficients, so agreement at random points of a 255-bit field is agreement as polynomials,
-    i.e. for every modulus, up to an error of 4/2^254 per sample).
+    bit primes and a fixed 255-bit prime (polynomial identity testing: numerator and denominator of + - * // are
+    polynomials of degree 2 in the twelve coefficients with small integer coefficients, "denotes the reference result"
+    is a polynomial identity of degree <= 4, so a wrong formula survives one uniform sample of the 255-bit field with
+    probability <= 4/2^254, and a formula that agrees there agrees over Z, i.e. for every modulus).
 (b) exact-match attestations (three hash formats) with a fresh key per case: the aggregate after all challenges is the
     independently computed bit-pair profile, certainty(true) = 1 - 2^-n, certainty(rival with another profile) = 0.
 (c) range proofs: honest in-range proofs verify, dishonest ones (other range, cheating prover for an outside value,
@@ -16,6 +17,7 @@ from __future__ import annotations
 
 import hashlib
 import random
+import signal
 from functools import lru_cache
 
 from .. import fp2ref as R
@@ -29,14 +31,20 @@ RULE = ("(a) FP2Value operands = six coefficients (numerator and denominator of 
         "Grids: all operand pairs with coefficients in {0,1} for each of the 24 primes = 2 mod 3 below 200 (all of "
         "F_2's 64 representations), in {0,1,p-1} for p in {5,11,17} (thorough: all 24 primes, plus {0,1,2,p-1} for "
         "p in {5,11}); all p^6 representations of p in {2,5} for the unary operators. Random: coefficients uniform in "
-        "[0,p) (some special / out of range) at a fixed 255-bit prime (Schwartz-Zippel) and at 32..128-bit primes "
+        "[0,p) at a fixed 255-bit prime (Schwartz-Zippel samples, class a:p255-uniform), mixed uniform / special / out "
+        "of range coefficients at that prime, at 32..128-bit primes "
         "derived from the seed, with compositions (associativity, distributivity, cancellation) evaluated through "
         "the same per-operator comparison. Operands whose denominator is 0 in the field are skipped by construction "
         "and counted. Non-trivial (a) = both operands have a non-zero x coefficient in the reduced denominator. "
         "(b) fresh Boneh key per case (seeded, 32-bit primes; thorough also 64), value bytes x hash format x challenge "
         "order x prefix length; non-trivial = n >= 16 bit pairs and a rival value whose profile is one pair-move away. "
-        "(c) ranges 0 <= a <= b < 2^16, value inside incl. boundaries, honest and five kinds of dishonest provers. "
-        "(d) round trips on everything produced in (b), (c) and on drawn integers. distinct = digest of the case.")
+        "Also the three-node protocol run (attester, subject, verifier on AttestationCommunity with the shipped "
+        "formats). (c) ranges 0 <= a <= b < 2^16, b >= 1, value inside incl. boundaries; honest prover, and dishonest "
+        "ones: same proof for a range excluding the value, each response component shifted, exchanged value "
+        "commitment, cheating prover for a value outside the range whose proof is consistent except for the sign of one "
+        "response; non-trivial = honest proof accepted and at least one cheating proof was built without error. "
+        "(d) round trips on everything produced in (b), (c) and on drawn integers (non-trivial: a negative integer and "
+        "one above 255). distinct = digest of the case.")
 ASSUMPTIONS = [
     "pv.fp2ref is a correct implementation of F_p[x]/(x^2+x+1) (it self-checks every inverse it computes)",
     "moduli are primes = 2 (mod 3), the only ones generate_prime produces; Miller-Rabin with fixed bases decides "
@@ -44,7 +52,11 @@ ASSUMPTIONS = [
     "cryptographic soundness beyond the algebra listed in the statement is trusted; 32-bit key primes exercise the "
     "same code path as larger ones",
     "the Rust prime generator is replaced by a seeded pure-Python safe-prime search so that keys are a function of "
-    "the case seed; os.urandom inside the range-proof modules is replaced by a seeded stream for the same reason",
+    "the case seed; os.urandom inside the range-proof modules and the protocol driver is replaced by a seeded stream "
+    "for the same reason",
+    "a case that exceeds 25 s of CPU time (non-terminating retry loop) is inconclusive, not a violation",
+    "a key holder who uses the group order n to lift negative responses (x + j n) defeats the range proof; that is a "
+    "property of the scheme as designed (DESIGN C18/L) and is not flagged",
 ]
 
 ONE6 = [1, 0, 0, 1, 0, 0]
@@ -326,20 +338,25 @@ def _field_nontrivial(case: dict) -> bool:
 
 def _field_cls(case: dict) -> str:
     b = case["p"].bit_length()
+    if case.get("uniform"):
+        return "a:p255-uniform"
     return "a:p<200" if case["p"] < 200 else "a:p255" if b >= 250 else "a:p32-128"
 
 
 _SMALL = (2, 5, 11, 17, 23, 29, 41, 47)
 
 
-def _minimise(case: dict, sig: tuple, budget: int = 400) -> dict:
+def _minimise(case: dict, sig: tuple, budget: int = 400) -> tuple[dict, str]:
     """
     Greedy reduction of a failing field case keeping the signature (generated cases are shrunk by Hypothesis;
     this serves the enumerated / seeded ones and secondary signatures).
     """
+    # keep the failure on the case's own operands when it is there (the message then talks about x and y)
+    mode = "binary" if sig in field_eval(case, "binary").fails else "full"
+
     def still(c: dict) -> bool:
         try:
-            return sig in field_eval(c).fails
+            return sig in field_eval(c, mode).fails
         except Exception:
             return False
 
@@ -374,7 +391,7 @@ def _minimise(case: dict, sig: tuple, budget: int = 400) -> dict:
                         best = cand
                         changed = True
                         break
-    return best
+    return best, mode
 
 
 def _field_record(ctx: Ctx, case: dict, mode: str = "full", desc: int | None = None, repeats: bool = True) -> _Field:
@@ -394,7 +411,8 @@ def _field_record(ctx: Ctx, case: dict, mode: str = "full", desc: int | None = N
             ctx.count("a:failed %s@%s" % sig)
             if sig not in seen:
                 seen.add(sig)
-                hit = field_eval(_minimise(case, sig)).fails.get(sig)
+                small, small_mode = _minimise(case, sig)
+                hit = field_eval(small, small_mode).fails.get(sig)
                 if hit is not None:
                     v = hit
             elif not repeats:
@@ -518,12 +536,18 @@ def _random_field_case(rng: random.Random, seed: int, i: int) -> dict:
     else:
         p = rng.choice(R.field_primes_below(200))
     case = {"part": "field", "p": p}
-    for key in ("x", "y", "z"):
-        case[key] = [_draw_coeff(rng, p) for _ in range(6)]
-    if rng.random() < 0.15:   # denominators that are plain integers / numerators only: the shapes the unit tests use
-        case["x"][4] = case["x"][5] = 0
-    if rng.random() < 0.1:
-        case["y"] = list(case["x"])
+    if p == R.P255 and rng.random() < 0.7:
+        # the Schwartz-Zippel samples proper: all eighteen coefficients independent and uniform on [0, p)
+        for key in ("x", "y", "z"):
+            case[key] = [rng.randrange(p) for _ in range(6)]
+        case["uniform"] = True
+    else:
+        for key in ("x", "y", "z"):
+            case[key] = [_draw_coeff(rng, p) for _ in range(6)]
+        if rng.random() < 0.15:   # denominators that are plain integers: the shape the unit tests use
+            case["x"][4] = case["x"][5] = 0
+        if rng.random() < 0.1:
+            case["y"] = list(case["x"])
     case["ks"] = _draw_exponents(rng, p, i % 8 == 0)
     case["s"] = [_draw_coeff(rng, p) for _ in range(3)]
     case["t"] = [_draw_coeff(rng, p) for _ in range(2)]
@@ -562,7 +586,7 @@ def _hyp_field_shard(ctx: Ctx, shard: int, nshards: int, n: int) -> None:
 
 def _run_field(ctx: Ctx) -> None:
     shard_run(ctx, _grid_shard)
-    shard_run(ctx, _bulk_shard, extra=(800 if ctx.quick else 25_000,))
+    shard_run(ctx, _bulk_shard, extra=(800 if ctx.quick else 15_000,))
     shard_run(ctx, _hyp_field_shard, extra=(200 if ctx.quick else 3000,))
     ctx.note("p255", R.P255)
     ctx.note("random_prime_pool", list(_prime_pool(ctx.seed)))
@@ -621,11 +645,81 @@ class _Seeded:
         random.setstate(self.state)
 
 
+class _CaseTimeout(BaseException):
+    """
+    Raised by the CPU-time alarm; a BaseException so that no ``except Exception`` in the code under test eats it.
+    """
+
+
+class _CpuLimit:
+    """
+    Per-case limit on consumed CPU time (ITIMER_VIRTUAL: independent of machine load and of the wall clock). Key
+    generation and proof construction contain retry loops that need not terminate on a defective tree; a case that
+    exceeds the limit is recorded as inconclusive - never as a violation.
+    """
+
+    def __init__(self, seconds: float) -> None:
+        self.seconds = seconds
+
+    @staticmethod
+    def _fire(signum, frame) -> None:
+        raise _CaseTimeout
+
+    def __enter__(self) -> "_CpuLimit":
+        self.old = signal.signal(signal.SIGVTALRM, self._fire)
+        signal.setitimer(signal.ITIMER_VIRTUAL, self.seconds, 2.0)
+        return self
+
+    def __exit__(self, *exc) -> None:
+        signal.setitimer(signal.ITIMER_VIRTUAL, 0)
+        signal.signal(signal.SIGVTALRM, self.old)
+
+
+CPU_LIMIT_S = 25.0
+MAX_TIMEOUTS_PER_WORKER = 2
+
+
+def _limited(evaluate, case: dict) -> "_Collector":
+    """
+    Run one case evaluation under the CPU limit.
+    """
+    try:
+        with _CpuLimit(CPU_LIMIT_S):
+            return evaluate(case)
+    except _CaseTimeout:
+        c = _Collector(case)
+        c.inconclusive = f"case exceeded {CPU_LIMIT_S:.0f} s of CPU time (typical: 0.2 - 3 s)"
+        return c
+
+
+def _gave_up(ctx: Ctx, c: "_Collector | None", label: str, case: dict) -> bool:
+    """
+    Bookkeeping for inconclusive cases; once a worker has hit the limit twice the remaining cases of (b), (c) are
+    skipped and counted (a tree on which key generation does not terminate would otherwise cost minutes per case).
+    """
+    state = ctx.__dict__.setdefault("_c18_timeouts", [0])
+    if c is None:
+        if state[0] >= MAX_TIMEOUTS_PER_WORKER:
+            ctx.count("skipped_after_cpu_limit:" + label)
+            return True
+        return False
+    if c.inconclusive:
+        if "CPU time" in c.inconclusive:
+            state[0] += 1
+        ctx.count("inconclusive:" + label)
+        ctx.inconclusive.append(f"{label} seed {case.get('seed')}: {c.inconclusive}")
+        return True
+    return False
+
+
 class _Collector:
     def __init__(self, case: dict) -> None:
         self.case = case
         self.fails: dict[tuple, Violation] = {}
         self.counts: dict[str, int] = {}
+        self.inconclusive: str | None = None
+        self.n = self.near = self.cheats_built = 0
+        self.honest_ok = False
 
     def fail(self, clause: str, site: str, msg: str) -> None:
         if (clause, site) not in self.fails:
@@ -722,7 +816,6 @@ def exact_eval(case: dict) -> _Collector:
     profile = _profile(hash_mode, value)
     n = sum(profile)
     c.n = n
-    c.near = 0
     with _Seeded(case["seed"]):
         alg = BonehExactAlgorithm("fmt", {"fmt": fmt})
         try:
@@ -809,8 +902,12 @@ def exact_eval(case: dict) -> _Collector:
     return c
 
 
-def _exact_record(ctx: Ctx, case: dict) -> _Collector:
-    c = exact_eval(case)
+def _exact_record(ctx: Ctx, case: dict) -> _Collector | None:
+    if _gave_up(ctx, None, "exact", case):
+        return None
+    c = _limited(exact_eval, case)
+    if _gave_up(ctx, c, "exact", case):
+        return None
     desc = {k: case[k] for k in ("part", "hash", "key_size", "seed", "value", "order_seed", "prefix")}
     ctx.case(desc, c.n >= 16 and c.near > 0 and not c.fails, cls="b:" + case["hash"] + "/%d" % case["key_size"])
     for k, v in c.counts.items():
@@ -840,7 +937,7 @@ def _exact_strategy(quick: bool):
 def _hyp_exact_shard(ctx: Ctx, shard: int, nshards: int, n: int) -> None:
     def body(case: dict) -> None:
         c = _exact_record(ctx, case)
-        if c.fails:
+        if c is not None and c.fails:
             raise c.first()
     hyp_run(ctx, "exact", _exact_strategy(ctx.quick), body, n, shrink_examples=12)
 
@@ -920,8 +1017,6 @@ def range_eval(case: dict) -> _Collector:
     from ipv8.attestation.wallet.pengbaorange.attestation import create_attest_pair
     from ipv8.attestation.wallet.primitives.structs import pack_pair, unpack_pair
     c = _Collector(case)
-    c.honest_ok = False
-    c.cheats_built = 0
     a, b, value, ks = case["a"], case["b"], case["value"], case["key_size"]
     assert 0 <= a <= value <= b and b >= 1
     with _Seeded(case["seed"]) as env:
@@ -1030,8 +1125,12 @@ def range_eval(case: dict) -> _Collector:
     return c
 
 
-def _range_record(ctx: Ctx, case: dict) -> _Collector:
-    c = range_eval(case)
+def _range_record(ctx: Ctx, case: dict) -> _Collector | None:
+    if _gave_up(ctx, None, "range", case):
+        return None
+    c = _limited(range_eval, case)
+    if _gave_up(ctx, c, "range", case):
+        return None
     width = case["b"] - case["a"]
     cls = "c:single" if width == 0 else "c:boundary" if case["value"] in (case["a"], case["b"]) else "c:inside"
     ctx.case(case, c.honest_ok and c.cheats_built > 0 and not c.fails, cls=cls)
@@ -1072,7 +1171,7 @@ def _range_strategy():
 def _hyp_range_shard(ctx: Ctx, shard: int, nshards: int, n: int) -> None:
     def body(case: dict) -> None:
         c = _range_record(ctx, case)
-        if c.fails:
+        if c is not None and c.fails:
             raise c.first()
     hyp_run(ctx, "range", _range_strategy(), body, n, shrink_examples=10)
 
@@ -1162,7 +1261,6 @@ def e2e_eval(case: dict) -> _Collector:
     """
     import asyncio
     c = _Collector(case)
-    c.inconclusive = None
     fmt, value, rivals = case["format"], case["value"], list(case.get("rivals", []))
     hash_mode = _E2E_FORMATS[fmt]
 
@@ -1235,6 +1333,8 @@ def e2e_eval(case: dict) -> _Collector:
         loop = asyncio.new_event_loop()
         try:
             loop.run_until_complete(scenario())
+        except _CaseTimeout:
+            c.inconclusive = f"case exceeded {CPU_LIMIT_S:.0f} s of CPU time (typical: 0.2 - 3 s)"
         except Exception as e:
             c.fail("B7", "AttestationCommunity", f"honest protocol run raised {e!r}")
         finally:
@@ -1257,11 +1357,12 @@ def _e2e_strategy(quick: bool):
 
 def _hyp_e2e_shard(ctx: Ctx, shard: int, nshards: int, n: int) -> None:
     def body(case: dict) -> None:
-        c = e2e_eval(case)
-        if c.inconclusive:
-            ctx.count("b:e2e_inconclusive")
-            ctx.inconclusive.append(f"e2e seed {case['seed']}: {c.inconclusive}")
-        ctx.case(case, not c.fails and not c.inconclusive, cls="b:e2e/" + case["format"])
+        if _gave_up(ctx, None, "e2e", case):
+            return
+        c = _limited(e2e_eval, case)
+        if _gave_up(ctx, c, "e2e", case):
+            return
+        ctx.case(case, not c.fails, cls="b:e2e/" + case["format"])
         for v in c.fails.values():
             ctx.violation(v)
         if c.fails:
@@ -1275,10 +1376,15 @@ def _hyp_e2e_shard(ctx: Ctx, shard: int, nshards: int, n: int) -> None:
 
 def run(ctx: Ctx) -> None:
     _run_field(ctx)
-    shard_run(ctx, _hyp_exact_shard, extra=(8 if ctx.quick else 300,))
-    shard_run(ctx, _hyp_range_shard, extra=(5 if ctx.quick else 100,))
     shard_run(ctx, _hyp_ser_shard, extra=(150 if ctx.quick else 5000,))
-    shard_run(ctx, _hyp_e2e_shard, extra=(1 if ctx.quick else 40,))
+    shard_run(ctx, _hyp_exact_shard, extra=(8 if ctx.quick else 200,))
+    if ctx.hist.get("inconclusive:exact", 0) >= MAX_TIMEOUTS_PER_WORKER * 8:
+        # nothing that needs a key terminates on this tree: do not spend the same CPU limit again in (c) and (b')
+        ctx.inconclusive.append("parts (c) and (b') skipped: cases of (b) ran into the CPU limit in most workers")
+        ctx.count("skipped_after_cpu_limit:parts_c_and_e2e")
+        return
+    shard_run(ctx, _hyp_range_shard, extra=(4 if ctx.quick else 60,))
+    shard_run(ctx, _hyp_e2e_shard, extra=(1 if ctx.quick else 25,))
 
 
 _EVAL = {"exact": exact_eval, "range": range_eval, "ser": ser_eval, "e2e": e2e_eval}
@@ -1292,8 +1398,10 @@ def replay(ctx: Ctx, case: dict) -> None:
             raise next(iter(f.fails.values()))
         return
     if part in _EVAL:
-        v = _EVAL[part](case).first()
-        if v is not None:
-            raise v
+        c = _limited(_EVAL[part], case)
+        if c.inconclusive:
+            raise HarnessError(f"replay inconclusive: {c.inconclusive}")
+        if c.first() is not None:
+            raise c.first()
         return
     raise HarnessError(f"unknown case part {part!r}")
